@@ -31,6 +31,8 @@ def main():
     keep = '--keep' in args
     tier = args[args.index('--tier') + 1] if '--tier' in args else 'quick'
     variant = os.path.basename(vdir.rstrip('/'))
+    if '/r2-' in vdir:
+        variant = 'r2' + variant
     tmp = tempfile.mkdtemp(prefix='seedconf-')
     wt = os.path.join(tmp, 'wt')
     res = dict(property=pid, variant=variant)
